@@ -1122,6 +1122,17 @@ expand_manifests(string &expr, bool expand_undefined,
         }
       }
     }
+    else if (isdigit(expr[p])) {
+      // A number.  Skip over all of it, so that the letters it may contain (a
+      // base prefix, hex digits, an exponent or a suffix) are not mistaken for
+      // identifiers.
+      p++;
+      while (p < expr.size() &&
+             (isalnum(expr[p]) || expr[p] == '_' || expr[p] == '.' ||
+              (expr[p] == '\'' && p + 1 < expr.size() && isalnum(expr[p + 1])))) {
+        p++;
+      }
+    }
     else if (expr[p] == '\'' || expr[p] == '"') {
       // Skip the next part until we find a closing quotation mark.
       char quote = expr[p];
